@@ -133,12 +133,71 @@ def run(ctx):
            "final in-service masks replace the initial ones after the connectivity check", fp.loc())
 
 
+    # every contribution to the bus demand / result of an element is masked by the connectivity-aware mask
+    R5 = "ELEMENT-MASK"
+    ctx.rule(R5, "the bus demand built by _calc_pq_elements_and_add_on_ppc and the element results written by "
+                 "write_pq_results_to_element use the connectivity-aware masks net._is_elements[...] (is.<element>), never the raw "
+                 "in_service column: elements at unsupplied buses must contribute and report nothing")
+    n5 = 0
+    for fq, opts in (("pandapower.build_bus:_calc_pq_elements_and_add_on_ppc", {"mode": "pf", "voltage_depend_loads": False}),):
+        it, fr = facts.analyse(ctx.repo, fq, options=opts, schema_cols=True)
+        for col in ("PD", "QD"):
+            for s_ in it.stores:
+                if s_.path != f"ppc.bus.{col}" or s_.value.shape is None:
+                    continue
+                try:
+                    monos = list(s_.value.shape)
+                except TypeError:
+                    continue
+                for m in monos:
+                    els = {a.split(".")[1] for a in m.facs if a.startswith("net.") and a.count(".") >= 2}
+                    for el in sorted(els):
+                        n5 += 1
+                        raw = f"net.{el}.in_service" in m.facs
+                        masked = f"is.{el}" in m.facs
+                        ctx.ob(R5, f"pandapower.build_bus::_calc_pq_elements_and_add_on_ppc::{col}:{el}", masked and not raw,
+                               f"{el} contributes to {col} through is.{el}" if masked and not raw else
+                               f"the {el} term of {col} is masked by " + ("the raw in_service column" if raw else "nothing") +
+                               f" instead of net._is_elements['{el}']: a {el} at an unsupplied bus still loads it (non-zero results at a dead bus)",
+                               "pandapower/build_bus.py")
+    if n5 < 12:
+        ctx.fail(f"ELEMENT-MASK: only {n5} element terms of the bus demand found")
+    from rules import _lints
+    _lints.both_switch_ends(ctx, "FUSE-BOTH-ENDS")
+    _lints.dup_sweep(ctx, "DUP-OPERAND", ["pandapower.build_bus", "pandapower.pd2ppc", "pandapower.topology.create_graph",
+                                         "pandapower.topology.graph_searches", "pandapower.results_bus"])
+    # create_nxgraph adds the buses that no branch touched: all of them (out-of-service ones are removed afterwards)
+    R6 = "ISOLATED-NODES"
+    ctx.rule(R6, "create_nxgraph adds every bus of net.bus.index that no edge touched; the guard counts all buses, not a subset")
+    fg2 = ctx.repo.func(f"{CG}:create_nxgraph")
+    found = False
+    for node in ast.walk(fg2.node):
+        if isinstance(node, ast.If) and "mg.nodes()" in ast.unparse(node.test) and isinstance(node.test, ast.Compare):
+            body = ast.unparse(node)
+            if "add_node" not in body and "add_vertex" not in body:
+                continue
+            found = True
+            t = ast.unparse(node.test)
+            ok = "in_service" not in t and ("net.bus.index" in t or "len(net.bus)" in t) and "set(net.bus.index) - set(mg.nodes())" in body
+            ctx.ob(R6, f"{CG}::create_nxgraph::add-untouched-buses", ok,
+                   "buses without any edge are added as isolated nodes" if ok else
+                   f"guard `{t}`: an in-service bus without edges is not added when out-of-service buses already are nodes - it is missing from "
+                   "the graph and from every component", fg2.loc(node))
+    if not found:
+        # unconditional add is fine as well
+        ok = "set(net.bus.index) - set(mg.nodes())" in ast.unparse(fg2.node)
+        ctx.ob(R6, f"{CG}::create_nxgraph::add-untouched-buses", ok, "buses without any edge are added as isolated nodes", fg2.loc())
+
+
 def variants(repo):
     g = "pandapower/topology/graph_searches.py"
     r = "pandapower/results.py"
     rb = "pandapower/results_bus.py"
     V = Variant
     return [
+        V("motor masked by the raw in_service column", "pandapower/build_bus.py", in_function("_get_motor_pq", replace_once('active = net._is_elements["motor"]', 'active = tab["in_service"].values.astype(bool)')), "ELEMENT-MASK"),
+        V("bb switch mask tests bus twice", "pandapower/build_bus.py", in_function("create_bus_lookup", replace_once('np.isin(net["switch"]["element"].values, bus_is_idx))', 'np.isin(net["switch"]["bus"].values, bus_is_idx))')), "FUSE-BOTH-ENDS"),
+        V("untouched buses counted against in-service buses", "pandapower/topology/create_graph.py", replace_once("if len(mg.nodes()) < len(net.bus.index):", "if len(mg.nodes()) < np.count_nonzero(net.bus.in_service.values):"), "ISOLATED-NODES"),
         V("slack gens without slack flag", g, in_function("unsupplied_buses", replace_once("net.gen[net.gen.in_service & net.gen.slack].bus.values", "net.gen[net.gen.in_service].bus.values")), "SLACK-DEF"),
         V("nan marking after reading", r, in_function("_extract_results", lambda s: s.replace("    _set_buses_out_of_service(ppc)  # for NaN results in net.res_bus for inactive buses\n", "", 1).replace("    bus_lookup_aranged = _get_aranged_lookup(net)\n", "    bus_lookup_aranged = _get_aranged_lookup(net)\n    _set_buses_out_of_service(ppc)\n", 1)), "NAN-ORDER"),
         V("nan for PQ buses", rb, in_function("_set_buses_out_of_service", replace_once('ppc["bus"][:, BUS_TYPE] == NONE', 'ppc["bus"][:, BUS_TYPE] == 1')), "selector"),
